@@ -63,6 +63,10 @@ def argmax : List Int → Int
 def gather (a idx : List Int) : List Int := idx.map fun i => geti a i
 def allInb (a idx : List Int) : Bool := idx.all fun i => inb a i
 
+/-- `m[idx]` (rows) for an index array, and whether every index is in range -/
+def gatherM (m : List (List Int)) (idx : List Int) : List (List Int) := idx.map fun i => getrow m i
+def allInbM (m : List (List Int)) (idx : List Int) : Bool := idx.all fun i => inbM m i
+
 /-- `np.arange(len(mask))[mask]`: the positions at which a 0/1 mask is set -/
 def whereNZAux : Nat → List Int → List Int
   | _, [] => []
